@@ -162,8 +162,30 @@ def run(pid, tier, seed, replay=None):
     # --- 3. verdict
     rc = 0
     lines = []
+    # recorded findings (known_findings.json, never written at run time): each one is replayed on the
+    # implementation when it carries a replay case; it is reported as long as it still reproduces
+    finding_report = []
+    for fd in C.known_findings(pid):
+        name = fd["signature"].split(":")[0]
+        rp = fd.get("replay")
+        if rp and harness_ok and (tier == "thorough" or not rp.get("thorough_only")):
+            try:
+                got = C.run_harness(rp["engine"], [rp["case"]], shards=1)[0]
+            except C.Broken as e:
+                got = "broken: %s" % e
+            still = (got == rp["obs"])
+            finding_report.append({"finding": name, "case": rp["case"], "reproduced": still, "observation": got})
+            if still:
+                lines.append("KNOWN-FINDING: property=%s %s (replayed: engine %s case %s)" % (
+                    pid, fd["signature"], rp["engine"], rp["case"]))
+            else:
+                C.log("recorded finding `%s` no longer reproduces on this tree (observation %s)" % (name, got))
+        else:
+            lines.append("KNOWN-FINDING: property=%s %s" % (pid, fd["signature"]))
+            finding_report.append({"finding": name, "reproduced": None})
+    cov["known_findings"] = finding_report
     for sig, (pn, c, a, o) in sorted(known_hits.items()):
-        lines.append("KNOWN-FINDING: property=%s %s" % (pid, sig))
+        C.log("suppressed (matches a recorded finding): %s on case %s" % (sig, c))
     if violations:
         pn, c, a, m, o = violations[0]
         part = [p for p in parts if p.name == pn][0]
